@@ -420,7 +420,7 @@ func TestVerifC25(t *testing.T) {
 	th := &Thread{}
 	packed := map[string]bool{}
 	intVals := []int{0, 1, 2, 5, 9, 10, 15, 99, 100, 105, 150, 155, 1500, 1550, -1, -2, -9, -10, -13, -15,
-		-150, -155, -1500, -1550, 1 << 40, -(1 << 40)}
+		-150, -155, -1500, -1550, 1 << 20, -(1 << 20)}
 	for i := 0; i < n; i++ {
 		// row: a,b,c integers (sometimes ""), d,e strings
 		vals := make([]Value, 4)
